@@ -1002,6 +1002,9 @@ func callBuiltin(caller *frame, callpos token.Pos, fn *ssa.Builtin, args []value
 	case "delete": // delete(map[K]value, K)
 		switch m := args[0].(type) {
 		case *omap:
+			if caller.i.ps.gmaps != nil && caller.i.ps.gmaps[m] {
+				caller.i.ps.noteWrite("delete from a map reachable from a package variable")
+			}
 			m.delete(args[1])
 		default:
 			panic(fmt.Sprintf("illegal map type: %T", m))
